@@ -1054,3 +1054,52 @@ Proof.
       * repeat split.
       * discriminate.
 Qed.
+
+(* ---------------------------------------------------------------------------------------- *)
+(* the monitor's walk over a block's transactions *)
+Definition cancel_pred (c : Z) (e : ev) : bool :=
+  (e_kind e =? 2) && (e_t e =? c) && e_cancel e && e_unsafe e.
+
+Definition blkF (live : list Z) (es : list ev) : Z * pool * list Z -> btx -> Z * pool * list Z :=
+  fun '(code, p, cf) x =>
+      let '(t, body, rel) := x in
+      let p1 := remove_tx p t in
+      let cs := conflicting_held p1 t body in
+      let bad := existsb (fun c => mem c live &&
+                   negb (count_ev es (fun e => (e_kind e =? 2) && (e_t e =? c) && e_cancel e && e_unsafe e) =? 1)) cs in
+      ((if (code =? 0) && bad then 152 else code), fold_left remove_tx cs p1,
+       fold_left (fun l c => add_z c l) cs cf).
+
+Definition blk_bad (live : list Z) (es : list ev) (p : pool) (x : btx) : bool :=
+  existsb (fun c => mem c live && negb (count_ev es (cancel_pred c) =? 1)) (blk_tx_victims p x).
+
+Lemma blkF_step live es code p cf x :
+  blkF live es (code, p, cf) x =
+  ((if (code =? 0) && blk_bad live es p x then 152 else code), blk_tx_pool p x,
+   fold_left (fun l c => add_z c l) (blk_tx_victims p x) cf).
+Proof. destruct x as [[t body] rel]. reflexivity. Qed.
+
+Lemma blkF_spec live es : forall txs code p cf,
+  let r := fold_left (blkF live es) txs (code, p, cf) in
+  snd (fst r) = blk_pool p txs /\
+  (forall x, x ∈ snd r <-> x ∈ cf \/ x ∈ blk_victims p txs) /\
+  (code = 0 ->
+   (forall c, c ∈ blk_victims p txs -> c ∈ live -> count_ev es (cancel_pred c) = 1) ->
+   fst (fst r) = 0).
+Proof.
+  induction txs as [|x txs IH]; intros code p cf.
+  - simpl. split; [reflexivity|]. split; [|auto]. intros x. rewrite elem_of_nil. tauto.
+  - cbn [fold_left]. rewrite blkF_step.
+    specialize (IH (if (code =? 0) && blk_bad live es p x then 152 else code) (blk_tx_pool p x)
+                   (fold_left (fun l c => add_z c l) (blk_tx_victims p x) cf)).
+    cbv zeta in IH. destruct IH as (IH1 & IH2 & IH3). cbv zeta.
+    split; [exact IH1|]. split.
+    + intros y. rewrite IH2, fold_add_z_elem. cbn [blk_victims]. rewrite elem_of_app. tauto.
+    + intros -> Hall. apply IH3.
+      * assert (Hb : blk_bad live es p x = false); [|rewrite Hb; reflexivity].
+        unfold blk_bad. apply existsb_false_iff. intros c Hc.
+        destruct (mem c live) eqn:Em; [|reflexivity]. apply mem_elem in Em.
+        cbn [andb]. apply negb_false_iff, Z.eqb_eq.
+        apply (Hall c); [|exact Em]. cbn [blk_victims]. apply elem_of_app. left. exact Hc.
+      * intros c Hc. apply Hall. cbn [blk_victims]. apply elem_of_app. right. exact Hc.
+Qed.
